@@ -26,7 +26,8 @@ RULE = ("all supported LaTeX commands (682, exhaustive) x 9 context templates (a
 ASSUMPTIONS = ["the repository's latex_to_char dictionary as data defines 'supported command'",
                "script switches last until the end of the text (last switch wins), as RTF \\super/\\sub do",
                "keywords directly followed by a letter are not generated (the statement's two rules disagree there)"]
-DECIDING = ["texts_compared_reader_level", "commands_covered", "emitter_hook_evaluations", "component_positions_checked"]
+DECIDING = ["texts_compared_reader_level", "commands_covered", "emitter_hook_evaluations", "component_positions_checked",
+            "conversion_off_calls_checked_at_hook"]
 FLOOR = {"quick": 8000, "thorough": 60000}
 EXHAUSTIVE_NOTE = {"quick": "all 682 table commands x 9 templates; all ordered pairs of 10 special sequences",
                    "thorough": "all 682 table commands x 9 templates; all ordered pairs and triples of 10 special sequences"}
@@ -227,7 +228,9 @@ class EmitHook:
 
     def __init__(self):
         self.calls = 0
+        self.off_calls = 0
         self.log = None
+        self.bad = []
 
     def install(self):
         from rtflite.row import TextContent
@@ -240,6 +243,14 @@ class EmitHook:
             hook.calls += 1
             if hook.log is not None:
                 hook.log.append((self_t.text, self_t.convert, res))
+            # invariant at the hook, evaluated on EVERY call of every workload: with conversion
+            # off the emitted text is the input apart from character escaping
+            # (the title/subline/page header path calls the converter a second time on its own,
+            #  already formatted and escaped line - "\\fs24{\\f0 ...}" - whose result it discards)
+            if not self_t.convert and "{\\f" not in self_t.text:
+                hook.off_calls += 1
+                if EmitHook.decode(res) != self_t.text and len(hook.bad) < 5:
+                    hook.bad.append({"text": self_t.text, "emitted": res})
             return res
         TextContent._convert_special_chars = wrapped
         return self
@@ -302,6 +313,46 @@ def emitter_checks(ctx, rng, hook, n):
             if got != want:
                 ctx.violation(f"unknown command not left verbatim: {text!r} -> {got!r} (expected {want!r})",
                               {"text": text, "position": "emitter", "convert": True}, {"got": got, "want": want})
+
+
+def check_toggle_pairs(ctx, rng, hook):
+    """the SAME text in neighbouring cells / components, converted in one and not in the other
+    (per-cell text_convert matrix; footnote on, source off)"""
+    T = [c for c in table() if c[1:].isalpha()]
+    n = rng.randint(2, 6)
+    texts = []
+    for _ in range(n):
+        c = rng.choice(T)
+        texts.append(rng.choice(["Dose {c} level", "{c}", "x {c}, y", "{c} {c}"]).replace("{c}", c))
+    order = rng.choice([[True, False], [False, True], [True, False, True], [False, True, False]])
+    cols = [{"name": f"N{j}", "dtype": "str", "values": list(texts)} for j in range(len(order))]
+    shared = rng.choice(texts)
+    spec = {"kind": "table", "df": {"cols": cols}, "body": {"text_convert": [order]}, "colheader": "none",
+            "title": {"text": shared}, "subline": {"text": shared},
+            "footnote": {"text": shared, "as_table": rng.random() < 0.5},
+            "source": {"text": shared, "text_convert": False, "as_table": rng.random() < 0.5}}
+    hook.log = []
+    o = H.build_and_encode(spec)
+    log, hook.log = hook.log, None
+    if o.stage:
+        ctx.violation(f"{o.stage} raised {type(o.exc).__name__}: {str(o.exc)[:100]}", {"spec": spec}, None)
+        return
+    ctx.count("toggle_pair_documents")
+    for text, conv, res in log:
+        ctx.count("emitter_hook_evaluations")
+        ctx.case((text, "toggle", conv), True)
+        got = EmitHook.decode(res)
+        if not conv:
+            want = text
+        else:
+            ev = ref_events(text, True)
+            if has_raw(ev) or any(e[0] != "ch" for e in ev):
+                continue
+            want = "".join(e[1] for e in ev)
+        if got != want:
+            ctx.violation(f"same text with conversion {'on' if conv else 'off'} next to the opposite setting: "
+                          f"{text!r} emitted as {got!r}, expected {want!r}",
+                          {"text": text, "position": "emitter", "convert": conv}, {"order": order})
 
 
 def rand_text(rng):
@@ -465,9 +516,15 @@ def run_shard(desc, ctx):
                 check_body_batch(ctx, texts[i:i + 1000], True, "random mixed")
             for _ in range(desc["components"]):
                 check_components(ctx, rng)
+                check_toggle_pairs(ctx, rng, hook)
             emitter_checks(ctx, rng, hook, desc["n"] // 2)
+        if hook.bad:
+            b = hook.bad[0]
+            ctx.violation(f"conversion off but the emitter altered the text: {b['text']!r} -> {b['emitted']!r}",
+                          {"text": b["text"], "position": "emitter", "convert": False}, {"more": hook.bad[1:]})
     finally:
         ctx.count("convert_special_chars_calls", hook.calls)
+        ctx.count("conversion_off_calls_checked_at_hook", hook.off_calls)
         hook.uninstall()
 
 
